@@ -91,7 +91,7 @@ def check_case(c, violations, dist):
 
 def run(ctx):
     thorough = ctx["tier"] == "thorough"
-    n = 60000 if thorough else 3000
+    n = 60000 if thorough else 3000 * ctx.get('scale', 1)
     dist = collections.Counter()
     violations, samples = [], []
     distinct = set()
